@@ -278,6 +278,16 @@ func runRegisterImpl(op M) M {
 				opts.Extensions = map[string]interface{}{"credProps": true}
 				opts.Attestation = webauthn.AttestationConveyancePreference(pick(NewRNG(uint64(num(in["timeoutMs"]))), []string{"none", "direct", "indirect", "enterprise"}))
 			}
+			if a, ok := in["attestation"].(string); ok {
+				// the conveyance preference the relying party asked the client for: verification does not consult it
+				opts.Attestation = webauthn.AttestationConveyancePreference(unhx(a))
+			}
+			if sel, ok := in["selection"].(M); ok && opts.AuthenticatorSelection != nil {
+				// the other members of the selection criteria (attachment, resident key): not consulted either
+				opts.AuthenticatorSelection.AuthenticatorAttachment = webauthn.AuthenticatorAttachment(unhx(sel["attachment"].(string)))
+				opts.AuthenticatorSelection.ResidentKey = webauthn.ResidentKeyType(unhx(sel["residentKey"].(string)))
+				opts.AuthenticatorSelection.RequireResidentKey, _ = sel["requireResidentKey"].(bool)
+			}
 		}
 		fields := oneBuffer(unhx(op["rawId"].(string)), unhx(op["attObj"].(string)), unhx(op["cdj"].(string)))
 		cred := &webauthn.PublicKeyCreationCredential{RawID: fields[0],
